@@ -143,3 +143,15 @@ def _hooks(module, anchor):
 VARIANTS = [_hooks(M, "RefCount.append"), _hooks("xdeps/tasks.py", "Manager.__init__"),
             _hooks("xdeps/tasks.py", "ExprTask.__init__"), _hooks("xdeps/tasks.py", "FunctionTask.__init__"),
             _hooks("xdeps/tasks.py", "LinearKnob.__init__")]
+
+# ---- AttrDict (xdeps/utils.py): the container Manager.ref() creates by default; `self.__dict__ = self` must survive pickle / copy
+from pyvc.writeset import ReconstructThroughInitEngine      # noqa: E402
+ATTRDICT = Contract(module="xdeps/utils.py", qualname="AttrDict.__init__", params={}, min_obligations=3,
+                    extra=dict(engine=ReconstructThroughInitEngine, variant="reconstruct-through-init",
+                               init_establishes=("self.__dict__ = self",),
+                               forbidden_methods=("__reduce_ex__", "__getstate__", "__setstate__", "__copy__", "__deepcopy__", "__new__",
+                                                  "__getnewargs__", "__getnewargs_ex__")),
+                    note="a restored AttrDict is its own __dict__ again: __reduce__ rebuilds it by calling the class (so __init__ runs), "
+                         "applies no state, carries every item; no other pickle/copy hook is defined")
+VARIANTS_ATTRDICT = [ATTRDICT]
+VARIANTS = VARIANTS + VARIANTS_ATTRDICT
